@@ -153,8 +153,9 @@ def points(tier: str) -> List[Dict[str, Any]]:
     for socks in ("single", "dual"):
         for k in range(0, 12):
             pts.append({"scenario": "at-birth", "socks": socks, "k": k, "mode": "async_close", "jitter": 0.0, "close_at_us": 0})
+    step = 25 if tier == "quick" else 5
     for scenario in SCENARIOS:
-        for jitter in (0.0, 1.0):
+        for jitter in ((0.0, 1.0) if tier == "quick" else (0.0, 0.5, 1.0)):
             inst = reference_instants(scenario, jitter)
             offs = set()
             for i in inst:
@@ -162,7 +163,7 @@ def points(tier: str) -> List[Dict[str, Any]]:
                     if i + d >= 0:
                         offs.add(i + d)
             # every 25 ms while registrations (probes, announcements) are in flight
-            for ms in list(range(100, 1300, 25)) + (list(range(2500, 3700, 25)) if scenario != "early" else []):
+            for ms in list(range(100, 1300, step)) + (list(range(2500, 3700, step)) if scenario != "early" else []):
                 offs.add(ms * 1000)
             for off in sorted(offs):
                 for mode in ("async_close", "sync_close"):
